@@ -40,7 +40,16 @@ def arr_kinds(stage):
 def signal_of(c):
     r = np.random.RandomState(c.get('seed', 0) % (2 ** 31))
     n = c['N']
-    return r.uniform(-1, 1, n) if c['arr'] in ('1d', 'pd1') else r.uniform(-1, 1, (2, n))
+    shape = n if c['arr'] in ('1d', 'pd1') else (2, n)
+    dt = c.get('dtype')
+    if dt in ('int16', 'int32'):
+        # acquisition hardware delivers integer counts: the defining whole-signal computation is the same formula
+        # applied to the same integers (small enough that nothing overflows)
+        # (distinct values, so that a sample is still identified by its value)
+        size = int(np.prod(shape))
+        return (r.permutation(4 * size)[:size] - 2 * size).reshape(shape).astype(dt)
+    x = r.uniform(-1, 1, shape)
+    return x.astype(dt) if dt else x
 
 
 def in_channel(c):
@@ -228,6 +237,11 @@ class C12(Spec):
         if stage == 'rms' and s0 % max(p1, 1):
             s0 = (s0 // max(p1, 1)) * max(p1, 1)
         c = {'kind': stage, 'arr': arr, 'N': n, 'chunks': list(chunks), 'p1': p1, 'p2': p2, 's0': s0, 'seed': seed}
+        if seed % 7 in (1, 2, 3) and n > 9:      # random-stream cases only (the exhaustive scope keeps float64)
+            c['dtype'] = {1: 'int32', 2: 'int32', 3: 'float32'}[seed % 7]
+            if c['dtype'] == 'int32' and stage in ('rms', 'derivative', 'auto_th'):
+                # outputs of these stages are identified by value; |x| / differences of integers coincide too often
+                c['dtype'] = 'float32'
         if arr == 'pd1' and seed % 2:
             c['lab'] = 0
         if gaps:
